@@ -10,7 +10,9 @@ use rt::*;
 use std::io::{BufRead, Write};
 
 fn main() {
-    std::panic::set_hook(Box::new(|_| {}));
+    if std::env::var("VERIF_SHOW_PANICS").is_err() {
+        std::panic::set_hook(Box::new(|_| {}));
+    }
     install_sink();
     let tok_mode = std::env::args().any(|a| a == "tok");
     let stdin = std::io::stdin();
